@@ -79,6 +79,7 @@ clone_part('all_rabinkarp_x', 'all_rabinkarp', x14=True, rewrites=PARTS['all_rab
 clone_part('all_packedpair_x', 'all_packedpair', x14=True)
 clone_part('s_all_packedpair_x', 's_all_packedpair', x14=True)
 clone_part('all_twoway_x', 'all_twoway', x14=True)
+clone_part('all_twoway_c', 'all_twoway')
 reg(part('all_shiftor', 'src/arch/all/shiftor.rs', 'arch::all::shiftor', x14=True))
 
 # ---- aarch64 / wasm32 (text the host never compiles): intrinsics paths are redirected to the trusted ISA prelude
@@ -162,6 +163,8 @@ BUILDS = {
                             's_sse2_packedpair', 's_avx2_packedpair'], prelude=P0 + ['prelude/x_eqrk.vrs', 'prelude/x_pp.vrs']),
     'dev_twx': dict(parts=['ext', 'vector', 'all_mod', 'stub_all_memchr', 'memmem_reexport', 'memmem_pre', 'all_twoway_x'],
                     prelude=P0 + ['prelude/x_eqrk.vrs', 'prelude/x_tw.vrs']),
+    'dev_twc': dict(parts=['ext', 'vector', 'all_mod', 'stub_all_memchr', 'memmem_reexport', 'memmem_pre', 'all_twoway_c'],
+                    prelude=P0 + ['prelude/x_eqrk.vrs', 'prelude/x_twc.vrs']),
     'dev_so': dict(parts=['ext', 'vector', 'all_mod', 'all_shiftor'], prelude=P0 + ['prelude/x_so.vrs']),
     # other targets (text the x86_64 host never compiles)
     'aarch64': dict(parts=['ext', 'vector', 'vector_neon', 'generic_memchr', 'all_memchr', 'neon_memchr', 'aarch64_memchr',
